@@ -38,6 +38,7 @@ import (
 	"strings"
 	"sync"
 	"time"
+	"verif.local/harness/sched"
 
 	"google.golang.org/protobuf/proto"
 
@@ -495,6 +496,10 @@ func main() {
 		os.Exit(2)
 	}
 	args := os.Args[2:]
+	if len(args) >= 1 && args[0] == "schedworker" {
+		sched.WorkerMain(c15ConcScenarios())
+		return
+	}
 	if len(args) >= 3 && args[0] == "worker" {
 		shard, _ := strconv.Atoi(args[1])
 		n, _ := strconv.Atoi(args[2])
@@ -524,6 +529,9 @@ func main() {
 	replayF := fs.String("replay", "", "violation artefact: re-run the check and report whether its key is still produced")
 	fs.Parse(args)
 	if *replayF != "" {
+		if b, err := os.ReadFile(*replayF); err == nil && strings.Contains(string(b), "\"scenario\"") {
+			os.Exit(sched.ReplayFile("C15", c15ConcScenarios(), *replayF))
+		}
 		if err := common.ReplayByRerun(*replayF); err != nil {
 			fmt.Fprintln(os.Stderr, err)
 			os.Exit(2)
@@ -713,5 +721,16 @@ func main() {
 	rep.Assume("Announce/Discover dial the announced URL with insecure credentials and a dialer that always fails (grpc.Dial is lazy; no socket is opened); the announcer is wallet A, never a wired stub peer (stub peers have no *grpc.ClientConn to close)")
 	rep.Assume("client path updateDag is exercised with real gRPC over an in-process bufconn listener outside the controlled runtime (pass-through mode) with a 60 s watchdog per stream; processLackingParent is exercised inside the controlled runtime with a malicious GossipAPIClient installed in the peer table")
 	rep.Assume("one call at a time on the non-pre-emptive default schedule; after a panic, a refused-but-changed or an accepted state-changing request the world is rebuilt")
+	if *only == "" {
+		ex, div := c15ConcPart(rep, *procs)
+		if !ex {
+			rep.Set("concurrent_note", "concurrent part capped by its budget; the PRODUCT part is unaffected")
+		}
+		if div > 0 {
+			fmt.Fprintf(os.Stderr, "C15: %d executions of the concurrent part diverged\n", div)
+			rep.Finish()
+			os.Exit(2)
+		}
+	}
 	os.Exit(rep.Finish())
 }
